@@ -19,28 +19,36 @@ from .c07 import _bool_context
 from .flow import IntegrateFacts
 
 ID = 'C18'
-TECHNIQUE = ('def-use / reaching-definition flow of each Config field from the calculator\'s own tuple to its sink, '
-             'who-may-read/write inventory of the global default step with a dominance check of the setter guard, '
-             'abstract evaluation of the step size, and set/function checks over the unit-name and alias tables read '
-             'from source against a reference alias list')
+TECHNIQUE = ("def-use / reaching-definition flow of each Config field from the calculator's own tuple to its "
+             'sink, who-may-read/write inventory of the global default step with a dominance check of the '
+             'setter guard, abstract evaluation of the step size, and set/function checks over the unit-name '
+             'and alias tables read from source against a reference alias list')
 DECIDED = [
-    'R1 each of the 7 settings is read through the calculator\'s own Config tuple and reaches its sink (step -> time '
-    'step numerator, accuracy and iteration cap -> zero-finder loop, three limits -> termination guard, gravity -> y '
-    'of the gravity vector); the solver module references no module-level default or global; the tuple is stored '
-    'once, is immutable, is built fresh per calculator with the caller\'s overrides on top; documented defaults',
-    'R2 the global default step is read only at calculator creation (and by its getter), written only by reset and '
-    'by the setter, whose store is reached only when the value is > 0',
+    "R1 each of the 7 settings is read through the calculator's own Config tuple and reaches its sink (step "
+    '-> time step numerator, accuracy and iteration cap -> zero-finder loop, three limits -> termination '
+    'guard, gravity -> y of the gravity vector); the solver module references no module-level default or '
+    "global; the tuple is stored once, is immutable, is built fresh per calculator with the caller's "
+    'overrides on top; documented defaults',
+    'R2 the global default step is read only at calculator creation (and by its getter), written only by '
+    'reset and by the setter, whose store is reached only when the value is > 0',
     'R3 the air path per step is kappa * max_step * s / max(1, s) with kappa <= 1',
-    'R4 every enumeration name and every alias of the reference list, in any letter case, resolves to its own unit '
-    'through the resolver as read from source; the folded alias relation is a function; aliases survive blank '
-    'deletion and do not start like a number',
+    'R4 every enumeration name and every alias of the reference list, in any letter case, resolves to its own'
+    ' unit through the resolver as read from source; the folded alias relation is a function; aliases survive'
+    ' blank deletion and do not start like a number',
     'R5 an optional unit (Unit.Radian == 0) is never tested for truthiness',
-    'R6 a unit-name string reaches getattr(PreferredUnits, s) only under a membership test in the slot table and '
-    'becomes a Unit only through the resolver',
-    'R1b create_interface_config evaluated on a symbolic caller dict: each of the 8 settings arrives in the Config exactly as given; it stores nothing into the dict it is given (effect analysis); R4 follows compiled module-level patterns',
+    'R6 a unit-name string reaches getattr(PreferredUnits, s) only under a membership test in the slot table '
+    'and becomes a Unit only through the resolver',
+    'R1b create_interface_config evaluated on a symbolic caller dict: each of the 8 settings arrives in the '
+    'Config exactly as given; it stores nothing into the dict it is given (effect analysis); R4 follows '
+    'compiled module-level patterns',
+    'R7 PreferredUnits.set evaluated (entries unrolled) on calls that mix a valid entry with a unit name the '
+    'resolver rejects, a value of the wrong type or an unknown slot, before and after it: the valid entry is '
+    'applied in every case',
 ]
-NOT_DECIDED = ['that an override changes the computed numbers as intended (runtime); the air-path inequality as '
-               'numbers (second-order growth of the air speed within one step is covered by the factor 1/kappa)']
+NOT_DECIDED = [
+    'that an override changes the computed numbers as intended (runtime); the air-path inequality as numbers '
+    '(second-order growth of the air speed within one step is covered by the factor 1/kappa)',
+]
 
 SINKS = {
     'max_calc_step_size_feet': 'time step',
@@ -1011,6 +1019,64 @@ def run(prog: Program, rep, thorough: bool) -> None:
     check_aliases(prog, rep, 'C18.R4')
     check_optional_unit_truthiness(prog, rep, 'C18.R5')
     check_dynamic_names(prog, rep, 'C18.R6')
+    rep.rule('C18.R7', 'every valid entry of one PreferredUnits.set call is applied', 1)
+    check_set_entries(prog, rep, 'C18.R7')
+
+
+def check_set_entries(prog: Program, rep, rule: str) -> None:
+    """PreferredUnits.set evaluated (the loop over the entries unrolled) on calls that mix a valid entry with an entry the
+    resolver rejects, an entry of the wrong type and an unknown slot - before and after the valid one: the valid entry
+    must be applied whatever else the call carries (one bad line of a configuration table must not silence the rest)."""
+    from ..abseval import DictVal, Evaluator, State, Const, NONE, TRUE, FALSE, Undecided, leaves
+    um = prog.module(C.M_UNIT)
+    if not prog.has_func(C.M_UNIT, 'PreferredUnits.set'):
+        raise AnalysisError('anchor vanished: PreferredUnits.set')
+    setf = prog.func(C.M_UNIT, 'PreferredUnits.set')
+    rep.saw(setf)
+    kwname = setf.node.args.kwarg.arg if setf.node.args.kwarg else None
+    if kwname is None:
+        raise AnalysisError('PreferredUnits.set no longer takes **kwargs')
+    meter = C.enum_val(prog, 'Meter')
+    bad_entries = [('pressure', Const('kPa'), 'a unit name the resolver rejects'), ('velocity', Const(3.5), 'a value of the wrong type'),
+                   ('no_such_slot', Const('meter'), 'an unknown slot')]
+    problems = []
+    n_calls = 0
+    for bname, bval, blabel in bad_entries:
+        for order in ('before', 'after'):
+            pairs = [(bname, bval), ('distance', Const('meter'))]
+            if order == 'after':
+                pairs.reverse()
+
+            def h_setattr(ev_, fv, args, kwargs, st_):
+                st_.env['$sets'] = list(st_.env.get('$sets', [])) + [(args[1], args[2])]
+                return NONE
+
+            def h_parse(ev_, func, args, kwargs, st_, sv):
+                return meter if isinstance(args[0], Const) and args[0].value == 'meter' else NONE
+
+            def h_hasattr(ev_, fv, args, kwargs, st_):
+                return FALSE if isinstance(args[1], Const) and args[1].value == 'no_such_slot' else TRUE
+            ev = Evaluator(prog, hooks={'ext:builtins.setattr': h_setattr, 'call:_parse_unit': h_parse, 'ext:builtins.hasattr': h_hasattr})
+            ev.unroll = True
+            st = State()
+            kw = DictVal({('c', k_): v_ for k_, v_ in pairs})
+            try:
+                tree, st = ev.run_func(setf, {kwname: kw}, st)
+            except Undecided as exc:
+                raise AnalysisError(f'PreferredUnits.set: {exc}') from exc
+            n_calls += 1
+            for path_, lf in leaves(tree):
+                if path_:
+                    raise AnalysisError('PreferredUnits.set: the outcome on a concrete call is not decided')
+                sets = lf.state.env.get('$sets', [])
+                applied = any(isinstance(a_, Const) and a_.value == 'distance' and getattr(v_, 'name', None) == 'Meter' for a_, v_ in sets)
+                if lf.kind == 'raise' or not applied:
+                    problems.append(f"set({', '.join(k_ + '=...' for k_, _v in pairs)}): the valid entry distance='meter' is not applied "
+                                    f'when {blabel} comes {order} it')
+    if problems:
+        rep.fail(rule, um.path, setf.node.lineno, setf.qualname, 'entries', problems[0] + (f' (and {len(problems) - 1} more)' if len(problems) > 1 else ''))
+    else:
+        rep.ok(rule, setf.where, f'a valid entry is applied whatever rejected entry precedes or follows it ({n_calls} calls)')
 
 
 TCF = 'py_ballisticcalc/trajectory_calc/_trajectory_calc.py'
